@@ -449,7 +449,13 @@ Section Exec.
     (* one library call *)
     Definition step1 (w : world) (o : op) : res :=
       match o with
-      | OSigNew s _ => ok (set_sigs w (bind_key (w_sigs w) s None))
+      | OSigNew s _ =>
+          (* a script names each signal variable once while it lives (the generator re-creates a variable only after `sigdel`);
+             re-creating a live variable - which delta debugging can produce - is not a legal script *)
+          match lookup (w_sigs w) s with
+          | Some _ => throw w ExBadScript
+          | None => ok (set_sigs w (bind_key (w_sigs w) s None))
+          end
       | OSigDel s =>
           match lookup (w_sigs w) s with
           | None => throw w ExBadScript
@@ -554,9 +560,14 @@ Section Exec.
           with_handle w src (fun hd => ok (set_handles w (bind_key (w_handles w) dst hd)))
       | OHNew h => ok (set_handles w (bind_key (w_handles w) h handle_default))
       | OScNew c h =>
+          (* a live scoped-connection variable is re-used through `scassign` only: constructing over it is not a legal script *)
           with_handle w h (fun hd =>
-            let w1 := set_scoped w (bind_key (w_scoped w) c hd) in
-            ok (set_handles w1 (bind_key (w_handles w1) h (handle_moved_from hd))))
+            match lookup (w_scoped w) c with
+            | Some _ => throw w ExBadScript
+            | None =>
+                let w1 := set_scoped w (bind_key (w_scoped w) c hd) in
+                ok (set_handles w1 (bind_key (w_handles w1) h (handle_moved_from hd)))
+            end)
       | OScAssign c h =>
           with_handle w h (fun hd =>
             match lookup (w_scoped w) c with
@@ -575,9 +586,10 @@ Section Exec.
           | _, _ => ok w
           end
       | OScMoveCtor src dst =>
-          match lookup (w_scoped w) src with
-          | Some a => ok (set_scoped w (bind_key (bind_key (w_scoped w) src (handle_moved_from a)) dst a))
-          | None => ok w
+          match lookup (w_scoped w) src, lookup (w_scoped w) dst with
+          | Some a, None => ok (set_scoped w (bind_key (bind_key (w_scoped w) src (handle_moved_from a)) dst a))
+          | Some _, Some _ => throw w ExBadScript      (* move CONSTRUCTION needs a new variable *)
+          | None, _ => ok w
           end
       | OScDrop c =>
           match lookup (w_scoped w) c with
